@@ -132,6 +132,57 @@ def check_class(P, R, rule, cls, must, table, mw, path_prefix=()):
                 R.info.setdefault("redundant_exemption_rows", []).append("%s:%s" % (rule, k))
 
 
+def is_raw_storage(ctype):
+    """members whose storage holds indeterminate bytes unless the code assigns it: scalars, pointers, arrays of those"""
+    import re
+    ct = ctype.strip()
+    if ct.endswith("*"):
+        return True
+    base = re.sub(r"\[.*", "", ct).strip()
+    return base in ("int", "double", "long double", "bool", "char", "unsigned int", "long", "unsigned long", "float", "short",
+                    "unsigned char", "long long", "unsigned long long") or base.startswith("enum ")
+
+
+def fresh_rule(P, R, RULE):
+    """C06 (shared): a fresh engine object holds no indeterminate bytes a run could read.  Every raw-storage member of class
+    Phreeqc is must-written by the constructor, or by the load sequence every instance passes before its first run
+    (clean_up; init; do_initialize), or is in the C07 exemption table (rows re-checked: written before read, dead, ...)."""
+    R.rule(RULE, "no raw-storage member of class Phreeqc is left indeterminate on a fresh instance (constructor ∪ first-load sequence, or re-checked exemption)", minimum=380)
+    mw = MW.MustWrite(P, extra_cover_methods=("SetAll",))
+    ctors = [f for f in P.fns_named("Phreeqc::Phreeqc") if f.get("params") == ["PHRQ_io *"]]
+    if len(ctors) != 1:
+        R.anchor_missing(RULE, "constructor Phreeqc::Phreeqc(PHRQ_io *) not found")
+        return
+    must_ctor = set(mw.of_function(ctors[0]["key"]))
+    must = set(must_ctor)
+    for q in ("Phreeqc::clean_up", "Phreeqc::init", "Phreeqc::do_initialize"):
+        must |= set(mw.of_function(P.one(q)["key"]))
+    R.info["must_constructor"] = len(must_ctor)
+    et = load_table("c07_engine_exempt.json")["fields"]
+    hdr = fl_file(P, "Phreeqc")
+    n = 0
+    for fl in MW.all_fields(P, "Phreeqc"):
+        if not is_raw_storage(fl["ctype"]):
+            continue
+        n += 1
+        p = (fl["q"],)
+        if MW.covered(P, must_ctor, p, fl["ctype"]):
+            R.ok(RULE, fl["name"], "assigned by the constructor")
+        elif MW.covered(P, must, p, fl["ctype"]):
+            R.ok(RULE, fl["name"], "assigned by the first load (clean_up; init; do_initialize)")
+        elif fl["name"] in et:
+            ok, why = check_row(P, R, RULE, fl, et[fl["name"]], mw)
+            if ok:
+                R.ok(RULE, fl["name"], "exempt (%s): %s" % (et[fl["name"]]["class"], why))
+            else:
+                R.violation(RULE, fl["name"], "exemption class `%s` no longer holds: %s" % (et[fl["name"]]["class"], why), file=hdr, line=fl["line"], function="Phreeqc")
+        else:
+            R.violation(RULE, fl["name"], "member `%s` (%s) is assigned neither by the constructor nor by the first-load sequence on every path: a fresh instance reads "
+                        "whatever bytes the allocator handed out (e.g. those of a destroyed instance), so results differ between instances and repetitions"
+                        % (fl["name"], fl["type"][:40]), file=hdr, line=fl["line"], function="Phreeqc")
+    R.info["raw_storage_members"] = n
+
+
 def fl_file(P, cls):
     r = P.records.get(cls)
     return r["file"] if r else ""
